@@ -98,6 +98,7 @@ func drawSeedCfg(st *simrt.Stream, name string, port int) PeerCfg {
 		MetadataSize: -1, UnchokeAfter: time.Duration(st.Choice(3)) * time.Second,
 		AnswerDelay:       func() time.Duration { return time.Duration(st.Choice(40)) * time.Millisecond },
 		ChokeUninterested: st.Bool(1, 2),
+		NoDontHave:        st.Bool(1, 3),
 	}
 }
 
@@ -215,7 +216,10 @@ func readerMain(rc *RunCtx) {
 				if s.Closed || s.conn == nil {
 					simrt.Probe("seed-reconnects")
 					s.Connect()
-				} else if s.Ready && s.ChokingSys {
+				} else if s.Ready && s.ChokingSys && (!s.Cfg.ChokeUninterested || s.SysInterested) {
+					// (a seed that chokes whoever is not interested is an
+					// unchoking seed all the same: saying "interested" is the
+					// system's part)
 					s.Unchoke()
 				}
 			}
